@@ -150,9 +150,34 @@ Ori = make_i("ori", 13)
 Xori = make_i("xori", 14)
 Lui = make_i("lui", 15)
 
-Sllv = make_r("sllv", 0, 4)
-Srlv = make_r("srlv", 0, 6)
-Srav = make_r("srav", 0, 7)
+def make_shift_v(mnemonic, funct):
+    """Variable shift `op rd, rt, rs`: the value is in rt, the amount in rs."""
+    rt = Operand("rt", MipsRegister, read=True)
+    rs = Operand("rs", MipsRegister, read=True)
+    rd = Operand("rd", MipsRegister, write=True)
+    syntax = Syntax([mnemonic, " ", rd, ",", " ", rt, ",", " ", rs])
+    patterns = {
+        "opcode": 0,
+        "rs": rs,
+        "rt": rt,
+        "rd": rd,
+        "shamt": 0,
+        "funct": funct,
+    }
+    members = {
+        "tokens": [MipsRToken],
+        "rs": rs,
+        "rt": rt,
+        "rd": rd,
+        "syntax": syntax,
+        "patterns": patterns,
+    }
+    return type(mnemonic.title(), (MipsInstruction,), members)
+
+
+Sllv = make_shift_v("sllv", 4)
+Srlv = make_shift_v("srlv", 6)
+Srav = make_shift_v("srav", 7)
 
 
 class Jr(MipsInstruction):
